@@ -43,3 +43,18 @@ package server
 //@   call Put#3 asserts[C01] stderrdigest: arg2 == 1 && (req.ActionResult.StderrDigest != nil ==> (arg3 == req.ActionResult.StderrDigest.Hash && arg4 == req.ActionResult.StderrDigest.SizeBytes))
 //@   loop 0 invariant[C11] valid: validAR(req.ActionResult) && req.ActionResult != nil
 //@   loop 0 modifies casAcked, putN, #remoteexecution.OutputFile.Digest
+
+// GetActionResult (C06, C11, C15): the lookup key is the (possibly mangled) action digest; with
+// dependency checking the answer comes from GetValidatedActionResult only (a nil result is a miss,
+// reported as an error, never a partial result); without it the stored bytes are validated before
+// they are returned.
+//@ func (s *grpcServer) GetActionResult(ctx context.Context, req *pb.GetActionResultRequest) (*pb.ActionResult, error)
+//@   serves C06 C11 C15
+//@   requires s != nil && s.cache != nil && s.accessLogger != nil && s.errorLogger != nil && ctx != nil
+//@   noframe
+//@   nosafety
+//@   ensures[C06] oneof: (result1 == nil) <==> (result0 != nil)
+//@   call Cache.GetValidatedActionResult#* asserts[C06,C15] lookup: s.depsCheck && arg2 == acKey(s, old(req.ActionDigest.Hash), req.InstanceName)
+//@   call Cache.Get#* asserts[C15] rawlookup: !s.depsCheck && arg2 == 0 && arg3 == acKey(s, old(req.ActionDigest.Hash), req.InstanceName) && arg4 == 0 - 1 && arg5 == 0
+//@   call ActionResult#* asserts[C11] validates: !s.depsCheck && arg0 == result
+//@   call maybeInline#* asserts[C06] onlyhits: s.depsCheck && result != nil
